@@ -80,6 +80,8 @@ type runner struct {
 	planN int
 	fresh map[string][]*arm // spec id + base -> fresh arms per window
 	keep  map[string]int
+	// LogQL query -> fields written by execution 1, 2, 3 of its chain
+	logWrites map[string][][]fieldWrite
 	// baseline: planner fields that even the simplest plan of a language writes (set-once aliases and caches)
 	baseline map[string]map[string]bool
 	timers   map[string]float64
@@ -137,6 +139,15 @@ func (r *runner) culprit(lang string, prior []fieldWrite) string {
 		return "no-planner-field"
 	}
 	return best
+}
+
+// priorOf: the fields the first k executions of the plan of a LogQL query wrote (learnt in the re-execution pass).
+func (r *runner) priorOf(q string, k int) []fieldWrite {
+	var out []fieldWrite
+	for i := 0; i < k && i < len(r.logWrites[q]); i++ {
+		out = append(out, r.logWrites[q][i]...)
+	}
+	return out
 }
 
 func fmtT(t time.Time) string { return t.UTC().Format("2006-01-02T15:04:05.000Z") }
@@ -228,6 +239,9 @@ func (r *runner) reexec(s *spec, base string, wins []window) bool {
 			first = a
 		}
 		r.noteWrites(s, a)
+		if s.Lang == "logql" && s.Entry == "chain" && base == "A" {
+			r.logWrites[s.Query] = append(r.logWrites[s.Query], a.Writes)
+		}
 		v := r.x.compareArms(a, fresh[k])
 		r.report(s, "reexec", base, k+1, w, v, a, fresh[k], first, prior, "")
 		r.emitTrace(map[string]any{"ev": "Process", "p": pid, "k": k + 1, "writes": writeNames(a.Writes), "same": v.Class != "MEANING" && v.Class != "ERROR", "class": v.Class})
@@ -242,32 +256,41 @@ func (r *runner) reexec(s *spec, base string, wins []window) bool {
 	return true
 }
 
-// determinism: the same query translated n more times (now: after many other translations) gives the same SQL.
+// determinism: the same query translated n+1 more times (now: after many other translations, in another order)
+// gives the same SQL every time, and the same as the very first translation. Nothing is executed (every statement
+// answers no rows) unless the statements depend on earlier answers (complex TraceQL requests).
 func (r *runner) determinism(s *spec, base string, wins []window, n int) {
 	r.setup(s)
-	fresh, err := r.freshArms(s, base, wins)
-	if err != nil {
-		return
-	}
-	for i := 0; i < n; i++ {
-		sub, err := s.Make()
+	dry := s.Complexity == 0
+	var ref *arm
+	if !dry {
+		fresh, err := r.freshArms(s, base, wins)
 		if err != nil {
-			r.report(s, "determinism", base, 1, wins[0], verdict{Class: "ERROR", TokDiff: "plan-error", Detail: err.Error()}, &arm{}, fresh[0], nil, nil, "")
 			return
 		}
-		dry := s.Complexity == 0
+		ref = fresh[0]
+	}
+	for i := 0; i < n+1; i++ {
+		sub, err := s.Make()
+		if err != nil {
+			r.report(s, "determinism", base, 1, wins[0], verdict{Class: "ERROR", TokDiff: "plan-error", Detail: err.Error()}, &arm{}, &arm{}, nil, nil, "")
+			return
+		}
 		r.x.DB.dry = dry
 		a := sub.process(r.x, wins[0], 1, false)
 		r.x.DB.dry = false
-		ref := fresh[0]
-		if dry {
-			// nothing was executed: compare the statements only
-			ref = &arm{K: 1, SQL: fresh[0].SQL, Err: fresh[0].Err}
-			a.Out = nil
+		r.res.Stats["determinism_translations"]++
+		if ref == nil {
+			ref = a
+			// the statement that does not depend on answers must also equal the one of the first translation in this process
+			if fresh, err := r.freshArms(s, base, wins); err == nil && len(fresh[0].SQL) > 0 && len(a.SQL) > 0 && fresh[0].SQL[0] != a.SQL[0] {
+				one, two := &arm{K: 1, SQL: a.SQL[:1]}, &arm{K: 1, SQL: fresh[0].SQL[:1]}
+				r.report(s, "determinism", base, 1, wins[0], r.x.compareArms(one, two), one, two, nil, nil, "")
+			}
+			continue
 		}
 		v := r.x.compareArms(a, ref)
 		r.report(s, "determinism", base, 1, wins[0], v, a, ref, nil, nil, "")
-		r.res.Stats["determinism_translations"]++
 	}
 }
 
@@ -361,7 +384,7 @@ func main() {
 		os.Exit(2)
 	}
 	res := &result{Seed: *seed, Tier: *tier, Stats: map[string]int{}, Classes: map[string]int{}, Fields: map[string]*fieldStat{}, PlanErrors: map[string]string{}}
-	r := &runner{x: x, res: res, rng: rand.New(rand.NewSource(*seed)), fresh: map[string][]*arm{}, keep: map[string]int{},
+	r := &runner{x: x, res: res, rng: rand.New(rand.NewSource(*seed)), fresh: map[string][]*arm{}, keep: map[string]int{}, logWrites: map[string][][]fieldWrite{},
 		baseline: map[string]map[string]bool{}, timers: map[string]float64{}}
 	for t, n := range x.W.Store.Counts {
 		res.Stats["rows_"+t] = n
